@@ -51,6 +51,24 @@ pub fn replay(ctx: &mut Ctx, f: &[&str]) -> bool {
     true
 }
 
+/// `==` on normal forms of every pair of 1 x 2 and a sample of 2 x 3 matrices over a small range:
+/// equality of the stored forms must be equality of lattices, also for rank-deficient (wide) forms
+fn gen_eq_pairs(ctx: &mut Ctx) {
+    let one_by_two = all_mats(1, 2, 3);
+    for a in &one_by_two {
+        for b in &one_by_two {
+            do_same(ctx, a, b);
+        }
+    }
+    let two_by_three = all_mats(2, 3, 1);
+    let cnt = ctx.pick(600, 6000);
+    for _ in 0..cnt {
+        let a = &two_by_three[ctx.rng.below(two_by_three.len() as u64) as usize];
+        let b = &two_by_three[ctx.rng.below(two_by_three.len() as u64) as usize];
+        do_same(ctx, a, b);
+    }
+}
+
 pub fn all_mats(n: usize, m: usize, r: i64) -> Vec<M> {
     let cells = n * m;
     let base = (2 * r + 1) as u64;
@@ -167,6 +185,7 @@ fn all_ops(ctx: &mut Ctx, a: &M) {
 }
 
 pub fn generate(ctx: &mut Ctx) {
+    gen_eq_pairs(ctx);
     // exhaustive small shapes
     let shapes: Vec<(usize, usize, i64)> = if ctx.thorough {
         vec![(1, 1, 3), (1, 3, 2), (3, 1, 2), (2, 2, 2), (2, 3, 1), (3, 2, 1), (3, 3, 1), (4, 2, 1)]
@@ -189,6 +208,14 @@ pub fn generate(ctx: &mut Ctx) {
         all_ops(ctx, &a);
         let b = same_lattice(ctx, &a);
         do_same(ctx, &a, &b);
+        // a near miss: one entry changed (mostly in the last columns) — almost always another lattice,
+        // and for wide matrices the normal forms then differ only to the right of the diagonal
+        {
+            let mut c = a.clone();
+            let (r, col) = (ctx.rng.below(n as u64) as usize, if ctx.rng.chance(2, 3) { m - 1 } else { ctx.rng.below(m as u64) as usize });
+            c[r][col] += BigInt::from(1 + ctx.rng.below(3) as i64);
+            do_same(ctx, &a, &c);
+        }
         do_hnfu(ctx, &b);
         if i % 2 == 0 {
             let cn = 1 + ctx.rng.below(4) as usize;
